@@ -11,7 +11,7 @@ start, end, length, letter, Letter, roman, Roman).
 attributed to a known cause (stable tags): {"text_keyword"} = DESIGN D13."""
 import html
 
-from talgen import Elem, Text, Raw, split_semi, plain_attrs, source_parts, RefCV, IterLike
+from talgen import Elem, Text, Raw, split_semi, plain_attrs, source_parts, RefCV, IterLike, RefTpl
 
 DEFAULT = object()
 
@@ -517,6 +517,9 @@ class Ref:
             if structure:
                 if isinstance(content, MacroRef):
                     self.element(content.elem, {})
+                elif isinstance(content, RefTpl):
+                    # a template as a value: expanded in place, in the current context
+                    self.nodes(content.nodes, {})
                 else:
                     self.out.append(to_text(content))
             else:
